@@ -112,6 +112,15 @@ def program(draw, nmax=8, kinds=('call', 'await', 'map', 'amap', 'wait'), immedi
     out = {'T': T, 'form': draw(st.sampled_from(['direct', 'direct', 'deco-opts'])), 'fdur': fdur, 'fails': fails,
            'prog': prog, 'foreign': foreign, 'shutdown': sd,
            'func_fail_kind': draw(st.sampled_from(['exc', 'exc', 'exc', 'cancel', 'base']))}
+    if 'wait' in kinds and not immediate_only and len(prog) >= 2 and draw(st.integers(0, 2)) == 0:
+        # the operations come from two independent coroutines on the loop; a waiting task may be started some time
+        # before it actually calls wait()
+        mask = [draw(st.booleans()) for _ in prog]
+        out['prog'] = [o for o, m in zip(prog, mask) if not m] or prog[:1]
+        out['prog2'] = [o for o, m in zip(prog, mask) if m and o not in out['prog']]
+        for o in out['prog'] + out['prog2']:
+            if o['op'] == 'wait' and not o.get('inline') and draw(st.integers(0, 1)) == 0:
+                o['sleep'] = draw(st.sampled_from([U, T / 2, T, fdur / 2 if fdur else U, fdur if fdur else T]))
     if draw(st.integers(0, 3)) == 0:
         out['mixed_args'] = True      # arguments of mixed, mutually unorderable types ('range' iterables stay ints)
     if not shutdown and draw(st.integers(0, 4)) == 0:
@@ -124,6 +133,43 @@ def program(draw, nmax=8, kinds=('call', 'await', 'map', 'amap', 'wait'), immedi
             # main returns in the very instant a wait() is in progress, some loop iterations into it
             out['shutdown'] = draw(st.sampled_from(waits))
             out['shutdown_iters'] = draw(st.integers(1, 6))
+    return out
+
+
+@st.composite
+def pileup(draw):
+    """Programs built around one instant: a first call at 0 makes the function run from T to T+fdur; then 2-5 operations
+    of two independent coroutines (submissions, waits issued as tasks or inline, 0-2 loop iterations into the instant)
+    all fall on one landmark instant L - the start or the end of that invocation, or the end of the following quiet
+    period - and a tie seed decides in which order the coinciding timers are served."""
+    T = draw(st.sampled_from([0.25, 1.0]))
+    fdur = draw(st.sampled_from([T / 2, 2 * T, 2 * T]))
+    L = draw(st.sampled_from([T, T + fdur, T + fdur, T + fdur, 2 * T + fdur, 2 * T + 2 * fdur]))
+    nxt = [1]
+    progs = ([{'at': 0.0, 'op': 'call', 'x': 0}], [])
+
+    def op():
+        if draw(st.integers(0, 1)):
+            nxt[0] += 1
+            o = {'at': L, 'op': 'call', 'x': nxt[0]}
+        else:
+            o = {'at': L, 'op': 'wait', 'cancel': draw(st.booleans()), 'inline': draw(st.integers(0, 2)) == 0}
+        if draw(st.integers(0, 2)) == 0:
+            o['iters'] = draw(st.integers(1, 2))
+        return o
+    for _ in range(draw(st.integers(2, 5))):
+        progs[draw(st.integers(0, 1))].append(op())
+    if not any(o['op'] == 'wait' for p in progs for o in p):
+        progs[1].append({'at': L, 'op': 'wait', 'cancel': False, 'inline': False})
+    if draw(st.integers(0, 2)) == 0:
+        progs[draw(st.integers(0, 1))].append({'at': L + draw(st.sampled_from([U, T / 2, T])), 'op': 'wait',
+                                               'cancel': draw(st.booleans()), 'inline': False})
+    out = {'T': T, 'form': draw(st.sampled_from(['direct', 'deco-opts'])), 'fdur': fdur,
+           'fails': [1] if draw(st.integers(0, 5)) == 0 else [], 'prog': progs[0], 'prog2': progs[1], 'foreign': [],
+           'shutdown': None, 'func_fail_kind': 'exc', 'sched': {'mode': 'none'},
+           'tie': draw(st.one_of(st.just(0), st.integers(1, 10 ** 6)))}
+    if not out['prog2']:
+        del out['prog2']
     return out
 
 
@@ -166,7 +212,9 @@ def valid(case):
             if o.get('fail_kind', 'exc') not in ('exc', 'cancel', 'base'):
                 return False
             return True
-        if not all(ok_op(o) for o in case['prog']):
+        if not all(ok_op(o) for o in case['prog'] + (case.get('prog2') or [])):
+            return False
+        if any(o.get('sleep', 0) < 0 for o in case['prog'] + (case.get('prog2') or [])):
             return False
         for fp in case.get('foreign') or ():
             if not all(ok_op(o, True) for o in fp):
@@ -200,6 +248,10 @@ def simplify(case):
         yield dict(copy.deepcopy(case), func_fail_kind='exc')
     if case.get('other'):
         yield dict(copy.deepcopy(case), other=None)
+    if case.get('prog2'):
+        n = copy.deepcopy(case)
+        n['prog'] = n['prog'] + n.pop('prog2')
+        yield n
     for i, o in enumerate(case['prog']):
         if o['op'] in ('map', 'amap') and (o.get('fail_at') is not None or o.get('delay')):
             n = copy.deepcopy(case)
